@@ -330,6 +330,8 @@ impl CodegenContext {
         self.segments.values_mut().for_each(|s| s.reset());
         self.test_elements.clear();
         self.source_map.clear();
+        // A symbol usage may resolve to another definition than it did in the previous pass
+        self.analysis.clear();
     }
 
     fn try_current_target_pc(&self) -> Option<ProgramCounter> {
